@@ -613,7 +613,14 @@ func (rw *rewriter) wrapAccess(e ast.Expr) ast.Expr {
 	if rw.lhs[e] {
 		fn = "W"
 	}
-	return &ast.ParenExpr{X: &ast.StarExpr{X: rw.call(fn, &ast.UnaryExpr{Op: token.AND, X: e})}}
+	w := &ast.ParenExpr{X: &ast.StarExpr{X: rw.call(fn, &ast.UnaryExpr{Op: token.AND, X: e})}}
+	// keep the type of the wrapped expression known: the enclosing node (an
+	// index expression on a map held in a field, a range over it, len, delete)
+	// is classified by the type of this operand after the replacement
+	if tv, ok := rw.info.Types[e]; ok {
+		rw.info.Types[w] = tv
+	}
+	return w
 }
 
 func (rw *rewriter) raceExpr(c *astutil.Cursor) {
